@@ -1,9 +1,15 @@
 HOOK_COMMITS = ["0cc1f16"]
-FIX_COMMITS = ["f6ef902", "7953ad1", "5a73e74", "74bd988", "162c4e5", "d681b06", "d1e67ed", "f178a91", "418e2ff", "882956a", "d9c0ebc", "11b0018", "91d1a50", "a9847ff", "743a30c"]
+FIX_COMMITS = ["f6ef902", "7953ad1", "5a73e74", "74bd988", "162c4e5", "d681b06", "d1e67ed", "f178a91", "418e2ff", "882956a", "d9c0ebc", "11b0018", "91d1a50", "a9847ff", "743a30c", "d549723", "3e1966b"]
 NOTES = "All checks: bin/check <ID> --tier quick|thorough [--replay file]; exit 0/1/2 (2 = TOOL-ERROR). See DESIGN.md."
 NOT_APPLICABLE = {}
 _EVAL_NOTE = "Program-level values of 32/64-bit types are restricted to magnitude < 2^30 (TLC integers); runs outside the modelled fragment are counted as out_of_model and not judged. The typed AST is the checker's (parser desugarings such as <= and op-assignment are already applied), so duplicated evaluation introduced by the parser is not visible in this direction. Trusted: the projection typed AST -> JSON (harness/src/proj.rs), JSON value -> Literal conversion, TLC."
 CHECKS = {
+    "C12": {
+        "text": "ConstEval.tla defines the value of a top-level constant (wrapping arithmetic of the declared type at every sub-expression, references to earlier constants); Gen_Consts.tla enumerates declaration shapes x boundary assignments x fault modes of the supplied map and emits the expected values or the exact set of constants an error must name; the harness compiles every case six times with fresh maps, evaluates it and compares with the expected bits, and with the program in which every constant is replaced by its value.",
+        "design_ref": "DESIGN.md §5 C12",
+        "note": "Types u8, i8, u16, i16 for arithmetic; usize only for sizes (array size, loop trip count) with values 0..3 and no wrap; bool constants and single-array multi-party programs are not enumerated. Trusted: rendering of declarations and construction of the constants map in harness/src/c12.rs, TLC.",
+        "technique": "TLC-enumerated const programs and fault modes with oracle values replayed into compile_with_constants",
+    },
     "C08": {
         "text": "Patterns.tla defines Matches / Exhaustive / FirstMatch / WitnessOK over finite point domains (every value of bool, u8, i8; abstract boundary points with gap representatives for wider types; products for tuples, an enum and a struct with ..); Gen_Arms.tla builds every arm list up to the bound from boundary-directed pattern pools and emits verdict and deciding arm per value; the real checker's verdict must be equal, accepted matches are evaluated on every listed value, and the missing-case witnesses of rejected matches are validated by TLC (Trace_Witness.tla).",
         "design_ref": "DESIGN.md §5 C08",
